@@ -1,12 +1,13 @@
 package main
 
 import (
+	"fmt"
 	"verif/engine/sym"
 )
 
 const binPkg = "go.uber.org/thriftrw/protocol/binary"
 
-var pkgBinary = PkgDef{Path: binPkg, Dir: "protocol/binary", Name: "binary", Files: []string{"protocol_binary/zz_h03.go"}}
+var pkgBinary = PkgDef{Path: binPkg, Dir: "protocol/binary", Name: "binary", Files: []string{"protocol_binary/zz_common.go", "protocol_binary/zz_h03.go", "protocol_binary/zz_h02.go"}}
 
 var commonAssume = []string{
 	"A1 sequential execution (no goroutines)",
@@ -19,31 +20,68 @@ var commonAssume = []string{
 }
 
 func allChecks() []*CheckDef {
-	return []*CheckDef{checkC03()}
+	return []*CheckDef{checkC02(), checkC03()}
 }
 
 func checkC03() *CheckDef {
+	type bnd struct{ nA, nC, depth, budget, k, bin, muts int }
+	bounds := func(tier string) bnd {
+		if tier == "thorough" {
+			return bnd{nA: 11, nC: 7, depth: 3, budget: 5, k: 2, bin: 2, muts: 2}
+		}
+		return bnd{nA: 7, nC: 5, depth: 2, budget: 2, k: 1, bin: 1, muts: 1}
+	}
 	return &CheckDef{
 		ID:   "C03",
 		Pkgs: []PkgDef{pkgBinary},
 		Harnesses: func(tier string) []*sym.HarnessConfig {
-			maxN := 6
-			if tier == "thorough" {
-				maxN = 9
-			}
+			b := bounds(tier)
 			var out []*sym.HarnessConfig
-			for n := 0; n <= maxN; n++ {
-				out = append(out, &sym.HarnessConfig{Name: "h03a", Pkg: binPkg, Params: map[string]int{"n": n}, Budget: 400000, BigLim: maxN + 2, BudgetIsViolation: true})
+			for n := 0; n <= b.nA; n++ {
+				out = append(out, &sym.HarnessConfig{Name: "h03a", Pkg: binPkg, Params: map[string]int{"n": n}, Budget: 600000, BigLim: b.nA + 2, BudgetIsViolation: true})
 			}
-			out = append(out, &sym.HarnessConfig{Name: "h03a_witness", Pkg: binPkg, Params: map[string]int{"n": 3}, Budget: 400000, BigLim: maxN + 2, ExpectViolation: true})
+			out = append(out, &sym.HarnessConfig{Name: "h03b", Pkg: binPkg, Params: map[string]int{"depth": b.depth, "budget": b.budget, "k": b.k, "bin": b.bin, "muts": b.muts},
+				Budget: 1000000, BigLim: 40, BudgetIsViolation: true})
+			for n := 0; n <= b.nC; n++ {
+				out = append(out, &sym.HarnessConfig{Name: "h03c", Pkg: binPkg, Params: map[string]int{"n": n}, Budget: 600000, BigLim: b.nC + 2, BudgetIsViolation: true})
+			}
+			out = append(out, &sym.HarnessConfig{Name: "h03a_witness", Pkg: binPkg, Params: map[string]int{"n": 3}, Budget: 600000, BigLim: 8, ExpectViolation: true})
 			return out
 		},
 		Bounds: func(tier string) map[string]interface{} {
-			maxN := 6
-			if tier == "thorough" {
-				maxN = 9
+			b := bounds(tier)
+			return map[string]interface{}{
+				"familyA_input_bytes_max": b.nA, "requested_type": "all 256 values (symbolic)",
+				"familyB_value_shape":     map[string]int{"depth": b.depth, "nodes": b.budget, "container_len": b.k, "binary_len": b.bin},
+				"familyB_mutations":       fmt.Sprintf("truncation at every offset, or %d arbitrary byte substitution(s) at every position", b.muts),
+				"chunking_input_bytes_max": b.nC, "chunking": "every segmentation into reads of >=1 byte plus one zero-length read",
+				"outside": "longer inputs; >1MiB binaries on the success side; I/O errors other than EOF",
 			}
-			return map[string]interface{}{"input_bytes_max": maxN, "requested_type": "all 256 values (symbolic)"}
+		},
+		Assume: commonAssume,
+	}
+}
+
+func checkC02() *CheckDef {
+	params := func(tier string) map[string]int {
+		if tier == "thorough" {
+			return map[string]int{"depth": 3, "budget": 6, "k": 2, "bin": 3}
+		}
+		return map[string]int{"depth": 2, "budget": 4, "k": 2, "bin": 2}
+	}
+	return &CheckDef{
+		ID:   "C02",
+		Pkgs: []PkgDef{pkgBinary},
+		Harnesses: func(tier string) []*sym.HarnessConfig {
+			return []*sym.HarnessConfig{
+				{Name: "h02", Pkg: binPkg, Params: params(tier), Budget: 2000000},
+				{Name: "h02_witness", Pkg: binPkg, Params: map[string]int{"depth": 1, "budget": 2, "k": 1, "bin": 1}, ExpectViolation: true},
+			}
+		},
+		Bounds: func(tier string) map[string]interface{} {
+			p := params(tier)
+			return map[string]interface{}{"nesting_depth_max": p["depth"], "total_nodes_max": p["budget"], "container_len_max": p["k"], "binary_len_max": p["bin"],
+				"leaves": "all values of every scalar (symbolic), all field ids (symbolic, pairwise distinct)"}
 		},
 		Assume: commonAssume,
 	}
